@@ -308,8 +308,19 @@ theorem walkVarDefsB_done (sv : SV) (op : OperationDef) :
       obtain ⟨ws', hw⟩ := b dv hdv
       exact ⟨ws', fun e he => List.mem_append_right _ (hw e he)⟩
 
+theorem walkVarDefsA_complete (sv : SV) (cur : Option OperationDef) (ws : WS) :
+    ∀ (vs : List VarDef), ∀ v ∈ vs, ∃ e ∈ walkVarDefsA sv cur ws vs, e.cur = cur ∧ e.p = .variable v (sv.type? v.type.name)
+  | [], v, h => by cases h
+  | v0 :: rest, v, h => by
+    simp only [walkVarDefsA]
+    rcases List.mem_cons.1 h with rfl | h
+    · exact ⟨_, List.mem_cons_self, rfl, rfl⟩
+    · obtain ⟨e, he, x⟩ := walkVarDefsA_complete sv cur ws rest v h
+      exact ⟨e, List.mem_cons_of_mem _ he, x⟩
+
 /-- everything one operation walk does on behalf of the operation -/
 structure OpDone (sv : SV) (d : QueryDoc) (op : OperationDef) (es : List Event) : Prop where
+  varDefs : ∀ v ∈ op.vars, ∃ e ∈ es, e.cur = some op ∧ e.p = .variable v (sv.type? v.type.name)
   varDirs : ∀ v ∈ op.vars, HasDirArgs sv (some op) es v.dirs
   defaults : ∀ v ∈ op.vars, ∀ dv, v.default = some dv → HasDefault sv op es v dv
   dirs : HasDirArgs sv (some op) es op.dirs
@@ -318,7 +329,10 @@ structure OpDone (sv : SV) (d : QueryDoc) (op : OperationDef) (es : List Event) 
 
 theorem OpDone.mono {sv : SV} {d : QueryDoc} {op : OperationDef} {es es' : List Event} (h : OpDone sv d op es)
     (hs : ∀ e ∈ es, e ∈ es') : OpDone sv d op es' :=
-  { varDirs := fun v hv => (h.varDirs v hv).mono hs
+  { varDefs := fun v hv => by
+      obtain ⟨e, he, x⟩ := h.varDefs v hv
+      exact ⟨e, hs e he, x⟩
+    varDirs := fun v hv => (h.varDirs v hv).mono hs
     defaults := fun v hv dv hdv => by
       obtain ⟨ws, hw⟩ := h.defaults v hv dv hdv
       exact ⟨ws, fun e he => hs e (hw e he)⟩
@@ -362,7 +376,9 @@ theorem walkOperation_done (sv : SV) (d : QueryDoc) (k : Nat) (op : OperationDef
           (walkVarDefsB sv (some op) op.vars { visited := [], links := l, used := [] }).1).2 ++ r4.2 ++
         [{ cur := some op, links := r4.1.links, p := .operation op (usedFlags r4.1.used op.vars []) }] :=
       fun e he => List.mem_append_left _ (List.mem_append_right _ he)
-    refine ⟨fun v hv => ?_, fun v hv dv hdv => ?_, ?_, fun p' y hi => (c1 p' y hi).mono sub4, fun f hf => ?_⟩
+    refine ⟨fun v hv => ?_, fun v hv => ?_, fun v hv dv hdv => ?_, ?_, fun p' y hi => (c1 p' y hi).mono sub4, fun f hf => ?_⟩
+    · obtain ⟨e, he, x⟩ := walkVarDefsA_complete sv (some op) { visited := [], links := l, used := [] } op.vars v hv
+      exact ⟨e, List.mem_append_left _ (List.mem_append_left _ (List.mem_append_left _ (List.mem_append_left _ he))), x⟩
     · exact (walkVarDefsB_done sv op op.vars _ v hv).1.mono (fun e he =>
         List.mem_append_left _ (List.mem_append_left _ (List.mem_append_left _ (List.mem_append_right _ he))))
     · obtain ⟨ws', hw⟩ := (walkVarDefsB_done sv op op.vars { visited := [], links := l, used := [] } v hv).2 dv hdv
